@@ -13,6 +13,8 @@ bug-compatible, of the string surgery in
   * `expressions/parenthesis.py` `Parenthesis.rebuild`
   * `expressions/function/call.py` `FunctionCall.rebuild`
   * `expressions/select.py`      `Select.rebuild`
+  * `expressions/function/definition.py` `FunctionDefinition.rebuild` (identifier argument: `_render_output`,
+    `_format_colon_split`)
   * `expressions/with_statement.py` `WithStatement.rebuild`, `expressions/assertion.py` `Assertion.rebuild`
     (one stated deviation each: the trim of `environment.before` / `condition.before` that `rebuild`
     applies to a copy is left out — `from_cst` never writes these fields, they are `[]` on everything
@@ -196,6 +198,16 @@ def selOrIndent (dfltGap : Text) (indent : Nat) : Nat :=
   let l := Layout.fromGap dfltGap
   if l.onNewline then l.indent.getD (indent + 2) else indent
 
+/-- `FunctionDefinition._format_colon_split`: the text between the argument and `:` -/
+def lamColonPrefix (bcc : List Trivia) (bcGap : Text) (indent : Nat) : Text :=
+  -- (`colon_layout` is computed like the layout in front of the environment of a `with`)
+  let r := formatInterstitialTriviaWithSeparator bcc (withLayout bcc bcGap) indent
+    (inlineSep := if bcc.isEmpty then [] else [' ']) (dropBlankIfItems := false)
+  r.1 ++ r.2
+
+/-- `" "` or `"\n" * breaks_after_semicolon` -/
+def lamBreak (breaks : Nat) : Text := if breaks = 0 then [' '] else List.replicate breaks '\n'
+
 def kwWith : Text := ['w', 'i', 't', 'h']
 def kwAssert : Text := ['a', 's', 's', 'e', 'r', 't']
 
@@ -312,6 +324,11 @@ def Expr.rebuildA : Expr → Bool → Nat → Bool → Text
     addTrivia before after
       (exprStr ++ selSep exprStr attrGap attrBefore indent ++ '.' :: attrText attrs ++
         selOrSep dfltGap dfltBefore indent ++ ['o', 'r', ' '] ++ dflt.rebuildA false (selOrIndent dfltGap indent) true)
+      indent inline
+  | .lam name bcc bcGap breaks body before after, noAfter, indent, inline =>
+    let after := if noAfter then [] else after
+    addTrivia before after
+      (name ++ lamColonPrefix bcc bcGap indent ++ [':'] ++ lamBreak breaks ++ body.rebuildA false indent (breaks == 0))
       indent inline
 /-- `[item.rebuild(indent, inline) for item in items]` -/
 def rebuildAll : List Expr → Nat → Bool → List Text
@@ -610,6 +627,11 @@ def Expr.rebuildAP : Expr → Bool → Nat → Bool → List FP
       (exprP ++ [.ws (selSep (concat exprP) attrGap attrBefore indent), .tok ['.']] ++ attrP attrs ++
         [.ws (selOrSep dfltGap dfltBefore indent), .tok ['o', 'r'], .ws [' ']] ++
         dflt.rebuildAP false (selOrIndent dfltGap indent) true) indent inline
+  | .lam name bcc bcGap breaks body before after, noAfter, indent, inline =>
+    let after := if noAfter then [] else after
+    addTriviaP before after
+      ([.tok name, .ws (lamColonPrefix bcc bcGap indent), .tok [':'], .ws (lamBreak breaks)] ++
+        body.rebuildAP false indent (breaks == 0)) indent inline
 def rebuildAllP : List Expr → Nat → Bool → List (List FP)
   | [], _, _ => []
   | e :: rest, indent, inline => e.rebuildAP false indent inline :: rebuildAllP rest indent inline
